@@ -29,7 +29,8 @@ type Prog struct {
 	SSA     *ssa.Program
 	SSAPkg  map[string]*ssa.Package // import path -> ssa package (closure)
 
-	srcFuncs []*ssa.Function // all functions (incl. anonymous) with source in module packages
+	Methods  map[string][]*ssa.Function // module methods by name (interface dispatch)
+	srcFuncs []*ssa.Function            // all functions (incl. anonymous) with source in module packages
 }
 
 // Load type-checks RepoDir's ./... for goos and builds SSA for the whole import closure.
@@ -143,6 +144,13 @@ func (p *Prog) collectSrcFuncs() {
 			}
 		}
 	}
+	p.Methods = map[string][]*ssa.Function{}
+	for _, f := range p.srcFuncs {
+		if f.Signature.Recv() != nil && f.Parent() == nil {
+			p.Methods[f.Name()] = append(p.Methods[f.Name()], f)
+		}
+	}
+	ModuleMethods = p.Methods
 	sort.Slice(p.srcFuncs, func(i, j int) bool {
 		a, b := p.srcFuncs[i], p.srcFuncs[j]
 		if a.Pos() != b.Pos() {
